@@ -1,0 +1,215 @@
+//! Verification hooks. Compiled only with `--cfg unimock_verif`.
+//!
+//! Nothing in here changes what the library does; the items give an external
+//! harness (1) a way to build a clause list whose length is only known at run
+//! time and (2) a notification before every atomic operation / lock acquisition
+//! performed by the runtime.
+
+use crate::alloc::{Box, String, Vec};
+use crate::clause::term::Sink;
+use crate::Clause;
+
+type Deconstruct = Box<dyn FnOnce(&mut dyn Sink) -> Result<(), String>>;
+
+/// A clause made of a run-time list of clauses.
+///
+/// Every element goes through its own, real `Clause::deconstruct`.
+#[derive(Default)]
+pub struct DynClause {
+    items: Vec<Deconstruct>,
+}
+
+impl DynClause {
+    /// Empty clause list
+    pub fn new() -> Self {
+        Self { items: Vec::new() }
+    }
+
+    /// Append a clause
+    pub fn push<C: Clause + 'static>(&mut self, clause: C) {
+        self.items
+            .push(Box::new(move |sink: &mut dyn Sink| clause.deconstruct(sink)));
+    }
+
+    /// Number of clauses pushed
+    pub fn len(&self) -> usize {
+        self.items.len()
+    }
+
+    /// No clauses
+    pub fn is_empty(&self) -> bool {
+        self.items.is_empty()
+    }
+}
+
+impl Clause for DynClause {
+    fn deconstruct(self, sink: &mut dyn Sink) -> Result<(), String> {
+        for item in self.items {
+            item(sink)?;
+        }
+        Ok(())
+    }
+}
+
+/// Number of live handles to the shared state of a Unimock instance.
+pub fn shared_strong_count(unimock: &crate::Unimock) -> usize {
+    crate::alloc::Arc::strong_count(&unimock.shared_state)
+}
+
+/// Synchronisation primitives that announce themselves to a registered hook.
+pub mod sync {
+    use core::sync::atomic::{AtomicUsize as CoreAtomicUsize, Ordering};
+
+    /// Kind of operation about to be performed
+    #[derive(Clone, Copy, Debug, Eq, PartialEq)]
+    pub enum Op {
+        /// AtomicUsize::load
+        Load,
+        /// AtomicUsize::store
+        Store,
+        /// AtomicUsize::fetch_add
+        FetchAdd,
+        /// AtomicUsize::fetch_sub
+        FetchSub,
+        /// AtomicUsize::swap
+        Swap,
+        /// AtomicUsize::compare_exchange (and _weak)
+        CompareExchange,
+        /// AtomicUsize::fetch_update, fetch_max etc.
+        OtherRmw,
+        /// MutexIsh::locked about to take the lock
+        Lock,
+        /// OnceCell::try_insert in the value chain
+        TryInsert,
+    }
+
+    /// The hook type: operation and address of the object operated on.
+    pub type Hook = fn(Op, usize);
+
+    static HOOK: once_cell::sync::OnceCell<Hook> = once_cell::sync::OnceCell::new();
+
+    /// Register the hook (process-wide, first registration wins).
+    /// The hook decides itself (e.g. per thread) whether to do anything.
+    pub fn register(hook: Hook) {
+        let _ = HOOK.set(hook);
+    }
+
+    /// Announce an operation that is about to happen.
+    #[inline]
+    pub fn announce(op: Op, addr: usize) {
+        if let Some(hook) = HOOK.get() {
+            hook(op, addr);
+        }
+    }
+
+    /// Drop-in for `core::sync::atomic::AtomicUsize` that announces every access.
+    pub struct AtomicUsize(CoreAtomicUsize);
+
+    impl AtomicUsize {
+        /// see core
+        pub const fn new(v: usize) -> Self {
+            Self(CoreAtomicUsize::new(v))
+        }
+
+        fn addr(&self) -> usize {
+            self as *const Self as usize
+        }
+
+        /// see core
+        pub fn load(&self, order: Ordering) -> usize {
+            announce(Op::Load, self.addr());
+            self.0.load(order)
+        }
+
+        /// see core
+        pub fn store(&self, v: usize, order: Ordering) {
+            announce(Op::Store, self.addr());
+            self.0.store(v, order)
+        }
+
+        /// see core
+        pub fn fetch_add(&self, v: usize, order: Ordering) -> usize {
+            announce(Op::FetchAdd, self.addr());
+            self.0.fetch_add(v, order)
+        }
+
+        /// see core
+        pub fn fetch_sub(&self, v: usize, order: Ordering) -> usize {
+            announce(Op::FetchSub, self.addr());
+            self.0.fetch_sub(v, order)
+        }
+
+        /// see core
+        pub fn swap(&self, v: usize, order: Ordering) -> usize {
+            announce(Op::Swap, self.addr());
+            self.0.swap(v, order)
+        }
+
+        /// see core
+        pub fn compare_exchange(
+            &self,
+            current: usize,
+            new: usize,
+            success: Ordering,
+            failure: Ordering,
+        ) -> Result<usize, usize> {
+            announce(Op::CompareExchange, self.addr());
+            self.0.compare_exchange(current, new, success, failure)
+        }
+
+        /// see core
+        pub fn compare_exchange_weak(
+            &self,
+            current: usize,
+            new: usize,
+            success: Ordering,
+            failure: Ordering,
+        ) -> Result<usize, usize> {
+            announce(Op::CompareExchange, self.addr());
+            // the strong version: a spurious failure is not a scheduling decision
+            self.0.compare_exchange(current, new, success, failure)
+        }
+
+        /// see core
+        pub fn fetch_max(&self, v: usize, order: Ordering) -> usize {
+            announce(Op::OtherRmw, self.addr());
+            self.0.fetch_max(v, order)
+        }
+
+        /// see core
+        pub fn fetch_update<F>(
+            &self,
+            set_order: Ordering,
+            fetch_order: Ordering,
+            f: F,
+        ) -> Result<usize, usize>
+        where
+            F: FnMut(usize) -> Option<usize>,
+        {
+            announce(Op::OtherRmw, self.addr());
+            self.0.fetch_update(set_order, fetch_order, f)
+        }
+
+        /// see core
+        pub fn get_mut(&mut self) -> &mut usize {
+            self.0.get_mut()
+        }
+
+        /// see core
+        pub fn into_inner(self) -> usize {
+            self.0.into_inner()
+        }
+    }
+
+    impl Default for AtomicUsize {
+        fn default() -> Self {
+            Self::new(0)
+        }
+    }
+
+    impl core::fmt::Debug for AtomicUsize {
+        fn fmt(&self, f: &mut core::fmt::Formatter<'_>) -> core::fmt::Result {
+            self.0.fmt(f)
+        }
+    }
+}
